@@ -1,6 +1,9 @@
 package gov
 
 import (
+	"strings"
+	"github.com/gnolang/gno/gno.land/pkg/sdk/vm"
+	ec "verif/eng/chain"
 	"github.com/gnolang/gno/tm2/pkg/std"
 	"fmt"
 	"testing"
@@ -72,6 +75,48 @@ func TestDebugC12(t *testing.T) {
 				m, _ := e.qfile(d.Path + "/gnomod.toml")
 				fmt.Printf("     files=%q\n     gnomod=%q\n", l, m)
 			}
+		}
+	}
+}
+
+func TestDebugC12Attacks(t *testing.T) {
+	e, err := c12Setup(false)
+	if err != nil {
+		t.Fatal(err)
+	}
+	for _, via := range []string{"run", "realm"} {
+		for a := 0; a < len(c12Attacks)+3; a++ {
+			att := a
+			if a >= len(c12Attacks) {
+				att = 100 + a - len(c12Attacks)
+			}
+			if via == "realm" && att >= c12NRealmAttacks && att < 100 {
+				continue
+			}
+			if via == "run" && att >= 100 {
+				continue
+			}
+			var msg std.Msg
+			if via == "realm" {
+				msg = ec.Call(e.keys[0].Addr, c12PathMutr, "Do", []string{fmt.Sprint(att), "true"}, nil)
+			} else {
+				body := "package main\n\nimport \"" + c12PathPst + "\"\n\nfunc main() {\n\t" + strings.ReplaceAll(c12Attacks[att], "; ", "\n\t") + "\n\t" + c12Observe + "\n}\n"
+				msg = vm.NewMsgRun(e.keys[0].Addr, nil, []*std.MemFile{{Name: "main.gno", Body: body}})
+			}
+			e.tsec += 5
+			e.c.Begin(e.tsec)
+			r, _, _ := e.c.Send([]std.Msg{msg}, 80_000_000, 1_000_000, e.keys[0])
+			e.c.End()
+			es := "<ok>"
+			if r.Error != nil {
+				es = r.Error.Error()
+			}
+			snap, _, _ := e.pstState()
+			name := fmt.Sprint(att)
+			if att < len(c12Attacks) {
+				name = c12Attacks[att]
+			}
+			fmt.Printf("%-5s %-36s -> %.110s | persisted-same=%v\n", via, name, strings.ReplaceAll(es, "\n", " "), snap == e.pstSnapOrInit(snap))
 		}
 	}
 }
